@@ -40,6 +40,109 @@ func checkC09(c *Ctx) {
 		{Owner: "lib.DecoyTimeout", Field: "status", Mutex: "lib.RegisteredDecoys.m", Foreign: true},
 	}, nil)
 
+	// ---- C09.13 a phantom's registrations disappear only one by one: the per-phantom map is dropped only where it was
+	// just seen empty, in the same function (one lock hold) - a deferred / batched release acts on emptiness that a
+	// concurrent ingest may have ended, wiping a registration that was validated and announced in between
+	r.Rule("C09.13", "delete(decoys, phantom) only under len(decoys[phantom]) == 0 tested in the same critical section", 1)
+	{
+		n := 0
+		for _, f := range c.funcsOfPkgs("pkg/station/lib") {
+			eachInstr(f, func(in ssa.Instruction) {
+				call, ok := in.(*ssa.Call)
+				if !ok {
+					return
+				}
+				b, isB := call.Call.Value.(*ssa.Builtin)
+				if !isB || b.Name() != "delete" || len(call.Call.Args) != 2 {
+					return
+				}
+				mp := pathOf(call.Call.Args[0])
+				if !strings.HasSuffix(mp, ".decoys") {
+					return
+				}
+				n++
+				keyp := pathOf(call.Call.Args[1])
+				g := guardedM(f, in, func(cnd string, pol bool) bool {
+					return pol && strings.HasPrefix(cnd, "(0 == len("+mp+"[") && strings.Contains(cnd, keyp)
+				})
+				// no unlock of the registry lock between the emptiness test and the delete: the test is in this function and
+				// the lockset analysis (C09.1) requires the write lock at both; a release in between shows as a second Lock
+				relock := false
+				if g {
+					eachInstr(f, func(in2 ssa.Instruction) {
+						if c2, ok := in2.(*ssa.Call); ok {
+							if _, _, op := lockOp(&c2.Call); op == "unlock" {
+								if before, _ := reach(f, in2, isInstr(in), nil, nil); before {
+									if _, isDefer := in2.(*ssa.Defer); !isDefer {
+										relock = true
+									}
+								}
+							}
+						}
+					})
+				}
+				r.Check(g && !relock, "C09.13", fnName(f)+": delete("+firstN(mp, 30)+", "+firstN(keyp, 30)+") under its emptiness test", in.Pos(), fnName(f), "guarded by len(decoys[phantom]) == 0 in the same function, no unlock in between",
+					"the per-phantom map is dropped without (or not in the same critical section as) the test that it is empty: a registration ingested, validated and announced on that phantom in between is wiped - it becomes invisible to lookups, its timeout record is orphaned and the next delivery is announced as new again")
+			})
+		}
+		if n == 0 {
+			r.Unk("C09.13", "delete(decoys, phantom)", token.NoPos, "", "no delete on the per-phantom table found")
+		}
+	}
+
+	// ---- C09.12 no delivery is lost: every delivery that passes validation goes through the counting tracker
+	// (TrackRegistration -> track: inserts, or counts the duplicate) before ingest returns, on every path - whichever
+	// worker wins a race, N deliveries leave a count of N as in every serial order
+	r.Rule("C09.12", "every validated delivery passes TrackRegistration before ingestRegistration returns", 1)
+	if f := c.fn("C09.12", "pkg/station/lib", "RegistrationManager", "ingestRegistration"); f != nil {
+		valL, okV := findOneDeep(f, shortIs("ValidateRegistration"))
+		if okV && len(valL.chain) > 0 {
+			// validation (and with it tracking) moved into a phase helper: the rule is read there
+			f = valL.in
+			valL, okV = findOneDeep(f, shortIs("ValidateRegistration"))
+		}
+		tracks := findDeep(f, shortIs("TrackRegistration"), 2)
+		if !okV || len(tracks) == 0 {
+			r.Unk("C09.12", "ingestRegistration: ValidateRegistration / TrackRegistration", f.Pos(), fnName(f), "not found")
+		} else {
+			v := valL.toRoot(pathOf(valL.value()))
+			passed := edgesEstablishing(f, atomMatcher(Atom{v + "#0", true}))
+			errNil := edgesEstablishing(f, atomMatcher(Atom{"(" + orderEq("nil", v+"#1") + ")", true}))
+			isTrack := func(in ssa.Instruction) bool {
+				for _, t := range tracks {
+					if in == t.site() && mustPassDeep(t) {
+						return true
+					}
+				}
+				return false
+			}
+			// from the point where validation has passed (both tests), a return without the tracker
+			lost := false
+			var wit []int
+			starts := map[*ssa.BasicBlock]bool{}
+			for e := range passed {
+				starts[f.Blocks[e.from].Succs[e.slot]] = true
+			}
+			for e := range errNil {
+				starts[f.Blocks[e.from].Succs[e.slot]] = true
+			}
+			failed := edgesEstablishing(f, atomMatcher(Atom{v + "#0", false}, Atom{"(" + orderEq("nil", v+"#1") + ")", false}))
+			for b := range starts {
+				if hit, w := reachAt(f, b, isReturn, isTrack, failed); hit {
+					lost, wit = true, w
+				}
+			}
+			if len(starts) == 0 {
+				r.Unk("C09.12", "ingestRegistration: validation outcome", f.Pos(), fnName(f), "no branch on the result of ValidateRegistration found")
+			} else if lost {
+				r.Bad("C09.12", "ingestRegistration: a validated delivery can return without passing TrackRegistration", valL.site().Pos(), fnName(f),
+					"a path on which validation passed returns without the counting tracker: the delivery that loses a race with another worker (or takes that path for any other reason) leaves no trace, so N deliveries are recorded as fewer than N - an outcome no serial order produces", r.blockPath(f, wit)...)
+			} else {
+				r.OK("C09.12", "ingestRegistration: every validated delivery is tracked (inserted or counted)", valL.site().Pos(), fmt.Sprintf("%d TrackRegistration site(s), must-pass from the validation-passed edges to every return", len(tracks)))
+			}
+		}
+	}
+
 	// ---- C09.11 an ingest worker never waits for a peer: the share request (an HTTP POST without timeout or context) is
 	// always started as its own goroutine - a worker only looks at the stop request between messages, so a silent
 	// peer would otherwise keep the pipeline from winding down
